@@ -105,6 +105,12 @@ def gen_expr(rng, ctx, srname, params, depth, budget, top=False):
     if depth <= 0 or budget[0] <= 1 or (not top and rng.random() < 0.12):
         budget[0] -= 1
         return gen_leaf(rng, ctx, srname, params)
+    if srname == "add-mul" and rng.random() < 0.07:      # subtraction / negation (normalize: binary_subtract, unary_contract)
+        a, fa = gen_expr(rng, ctx, srname, params, depth - 1, budget)
+        if rng.random() < 0.3:
+            return ("neg", a), fa
+        b, fb = gen_expr(rng, ctx, srname, params, depth - 1, budget)
+        return ("minus", a, b), fa | fb
     c = rng.random()
     if c < 0.34:      # product
         k = rng.choice([2, 2, 3, 3, 4])
@@ -182,8 +188,10 @@ def recipe_leaves(r):
         return recipe_leaves(r[3])
     if r[0] == "contraction":
         return sum(recipe_leaves(p) for p in r[2])
-    if r[0] == "subs":
+    if r[0] in ("subs", "neg"):
         return recipe_leaves(r[1])
+    if r[0] == "minus":
+        return recipe_leaves(r[1]) + recipe_leaves(r[2])
     raise ValueError(r[0])
 
 
@@ -198,8 +206,11 @@ def recipe_tags(r, acc=None):
     elif r[0] == "contraction":
         for p in r[2]:
             recipe_tags(p, acc)
-    elif r[0] == "subs":
+    elif r[0] in ("subs", "neg"):
         recipe_tags(r[1], acc)
+    elif r[0] == "minus":
+        recipe_tags(r[1], acc)
+        recipe_tags(r[2], acc)
     return acc
 
 
@@ -242,6 +253,10 @@ def build(r, srname, ctx, linear=False):
         _, rv, parts = r
         terms = [build(p, srname, ctx, linear) for p in parts]
         return Contraction(sum_op, prod_op, frozenset(Variable(n, Bint[ctx[n]]) for n in rv), *terms)
+    if tag == "minus":
+        return build(r[1], srname, ctx, linear) - build(r[2], srname, ctx, linear)
+    if tag == "neg":
+        return -build(r[1], srname, ctx, linear)
     if tag == "subs":
         body = build(r[1], srname, ctx, linear)
         kw = {}
@@ -269,6 +284,10 @@ def python_of(r, ctx):
     if tag == "contraction":
         vs = "frozenset([" + ", ".join(f"Variable({n!r}, Bint[{ctx[n]}])" for n in r[1]) + "])"
         return f"Contraction(SUM, PROD, {vs}, " + ", ".join(python_of(p, ctx) for p in r[2]) + ")"
+    if tag == "minus":
+        return f"(({python_of(r[1], ctx)}) - ({python_of(r[2], ctx)}))"
+    if tag == "neg":
+        return f"(-({python_of(r[1], ctx)}))"
     if tag == "subs":
         kw = ", ".join(f"{k!r}: " + (f"Variable({v[1]!r}, Bint[{v[2]}])" if v[0] == "var" else f"Number({v[1]}, {v[2]})")
                        for k, v in r[2])
@@ -358,14 +377,48 @@ def record_optimizer(log):
         paths.append(p)
         return p
 
+    import collections as _collections
+    import types as _types
+    orig_collections = fopt.collections
+    ops_log = []        # ("sub" | "upd", names) calls on reduce_dim_counter of the firing in progress
+
+    class LoggingCounter(_collections.Counter):
+        # optimizer.py:123-144: n initial updates, then per path step subtract(ta), subtract(tb), update(kept)
+        def subtract(self, other=None, **kw):
+            ops_log.append(("sub", sorted(getattr(d, "name", str(d)) for d in (other or {}))))
+            return super().subtract(other, **kw)
+
+        def update(self, other=None, **kw):
+            ops_log.append(("upd", sorted(getattr(d, "name", str(d)) for d in (other or {}))))
+            return super().update(other, **kw)
+
+    def steps_of(nterms):
+        """path_end_reduced_vars of every step = (reduced ∩ ta ∪ reduced ∩ tb) - kept"""
+        seq = ops_log[nterms + 1:]      # Counter() itself calls update() once
+        out = []
+        if len(seq) % 3:
+            return None
+        for i in range(0, len(seq), 3):
+            (k1, s1), (k2, s2), (k3, s3) = seq[i:i + 3]
+            if (k1, k2, k3) != ("sub", "sub", "upd"):
+                return None
+            out.append(sorted((set(s1) | set(s2)) - set(s3)))
+        return out
+
     def dispatch(cls, *args):
         fn = orig_dispatch(cls, *args)
         if getattr(fn, "__name__", "") == "optimize_contract_finitary_funsor":
             def rec(*a):
                 before = len(paths)
-                r = fn(*a)
+                del ops_log[:]
+                fopt.collections = _types.SimpleNamespace(Counter=LoggingCounter)   # only while the rule runs
+                try:
+                    r = fn(*a)
+                finally:
+                    fopt.collections = orig_collections
                 if r is not None and len(paths) == before + 1:
-                    log.append(dict(red_op=a[0], bin_op=a[1], reduced=a[2], terms=a[3], path=list(paths[-1]), result=r))
+                    log.append(dict(red_op=a[0], bin_op=a[1], reduced=a[2], terms=a[3], path=list(paths[-1]), result=r,
+                                    steps=steps_of(len(a[3]))))
                 return r
             return rec
         return fn
@@ -377,6 +430,7 @@ def record_optimizer(log):
     finally:
         fopt.optimize_base.dispatch = orig_dispatch
         fopt.greedy = orig_greedy
+        fopt.collections = orig_collections
 
 
 def binder_positions(f, acc=None):
@@ -590,7 +644,7 @@ def parse_optimize(ans):
     t = parse_sx(ans[3:])
     d = {item[0]: item[1:] for item in t}
     return dict(value=[atom_to_num(v) for v in d["value"][0]], spec=[atom_to_num(v) for v in d["spec"][0]],
-                trace=d["trace"][0], final=[str(n) for n in d["final"]], ins=[str(n) for n in d["ins"]])
+                trace=d["trace"][0], final=[str(n) for n in d["final"][0]], ins=[str(n) for n in d["ins"][0]])
 
 
 # ------------------------------------------------------------------------------------------------
@@ -808,6 +862,13 @@ def check_cases(ctx, cases, label="clean"):
                 if got is None:
                     ctx.count("firing:lazy-result")
                 ctx.count("firing:tied")
+            # per-step path_end_reduced_vars: the real run vs the model's trace (fidelity, not gated)
+            mtrace = [sorted(str(n) for n in (st[2] if isinstance(st[2], list) else [])) for st in m["trace"]]
+            if fr.get("steps") is not None and len(fr["steps"]) == len(mtrace):
+                ctx.count("firing:trace-agrees" if fr["steps"] == mtrace else "firing:trace-differs")
+                ctx.count("firing:final-vars-empty" if not m["final"] else "firing:final-vars-nonempty")
+            else:
+                ctx.count("firing:trace-unobserved")
         nontrivial = (recipe_leaves(case["recipe"]) >= 2 and len(ins) >= 0 and
                       any(t in ("sum", "contraction") for t in recipe_tags(case["recipe"])))
         if ok_all:
@@ -913,6 +974,10 @@ def oracle(recipe, srname, ctx, env_lin):
                 p2.update({n: i for (n, _), i in zip(vs, asg)})
                 vals.append(fold(smul, [ev(p, p2) for p in r[2]]))
             return fold(sadd, vals)
+        if tag == "minus":
+            return ev(r[1], pt) - ev(r[2], pt)
+        if tag == "neg":
+            return -ev(r[1], pt)
         if tag == "subs":
             p2 = dict(pt)
             for k, v in r[2]:
@@ -995,6 +1060,17 @@ def shrink_variants(r):
         for i, p in enumerate(r[2]):
             for v in shrink_variants(p):
                 yield ("contraction", r[1], tuple(v if j == i else q for j, q in enumerate(r[2])))
+    elif tag == "minus":
+        yield r[1]
+        yield r[2]
+        for v in shrink_variants(r[1]):
+            yield ("minus", v, r[2])
+        for v in shrink_variants(r[2]):
+            yield ("minus", r[1], v)
+    elif tag == "neg":
+        yield r[1]
+        for v in shrink_variants(r[1]):
+            yield ("neg", v)
     elif tag == "subs":
         yield r[1]
         if len(r[2]) > 1:
